@@ -1148,3 +1148,126 @@ Example ordinary_bad : r_dec (handle_update_req repaired wc0 (RUpdate (wupd (wst
   /\ r_dec (handle_update_req repaired wc0 (RUpdate (mkUpd (wst 1 [[70; 30]%Z] []) 1 (SigOf 2 (enc_state wS0))))) = Drop
   /\ r_dec (handle_update_req repaired wc0 (RUpdate (wupd (wst 1 [[60; 30]%Z] [mkSA wX [10%Z] []]) 1))) = Drop.
 Proof. vm_compute. auto. Qed.
+
+(* ---------- the parent lock of the proposal handlers ---------- *)
+Definition cnt (x : bytes) (l : list bytes) : nat := length (filter (bytes_eqb x) l).
+Definition holds (known : list bytes) (p : pmsg) : list bytes :=
+  match pm_parent p with Some par => if id_in par known then [par] else [] | None => [] end.
+Definition held (known : list bytes) (infl : list pmsg) : list bytes := flat_map (holds known) infl.
+
+Lemma bytes_eqb_refl x : bytes_eqb x x = true.
+Proof. apply bytes_eqb_eq. reflexivity. Qed.
+Lemma bytes_eqb_sym x y : bytes_eqb x y = bytes_eqb y x.
+Proof. destruct (bytes_eqb x y) eqn:E, (bytes_eqb y x) eqn:F; try reflexivity.
+  - apply bytes_eqb_eq in E. subst. rewrite bytes_eqb_refl in F. discriminate.
+  - apply bytes_eqb_eq in F. subst. rewrite bytes_eqb_refl in E. discriminate. Qed.
+
+Lemma cnt_nil x : cnt x [] = 0%nat. Proof. reflexivity. Qed.
+Lemma cnt_one x y : cnt x [y] = if bytes_eqb x y then 1%nat else 0%nat.
+Proof. unfold cnt. cbn [filter]. destruct (bytes_eqb x y); reflexivity. Qed.
+Lemma cnt_app x a b : cnt x (a ++ b) = (cnt x a + cnt x b)%nat.
+Proof. unfold cnt. rewrite filter_app, app_length. reflexivity. Qed.
+Lemma id_in_cnt x l : id_in x l = false -> cnt x l = 0%nat.
+Proof. unfold id_in, cnt. induction l as [|y l IH]; cbn [existsb filter]; [reflexivity|].
+  destruct (bytes_eqb x y); cbn [orb]; [discriminate|exact IH]. Qed.
+Lemma cnt_pos_in x l : (0 < cnt x l)%nat -> id_in x l = true.
+Proof. intro H. destruct (id_in x l) eqn:E; [reflexivity|]. rewrite (id_in_cnt _ _ E) in H. lia. Qed.
+
+(* removing one x: its count drops by one, all other counts stay *)
+Lemma remove1_cnt x l : (0 < cnt x l)%nat ->
+  exists r, remove1 x l = Some r /\ forall y, cnt y l = (cnt y r + (if bytes_eqb y x then 1 else 0))%nat.
+Proof.
+  induction l as [|z l IH]; cbn [remove1]; [unfold cnt; cbn; lia|].
+  intro H. destruct (bytes_eqb x z) eqn:E.
+  - exists l. split; [reflexivity|]. apply bytes_eqb_eq in E. subst z. intro y. unfold cnt. cbn [filter].
+    destruct (bytes_eqb y x); cbn [length]; lia.
+  - assert (H' : (0 < cnt x l)%nat) by (unfold cnt in *; cbn [filter] in H; rewrite E in H; exact H).
+    destruct (IH H') as (r & -> & C). exists (z :: r). split; [reflexivity|]. intro y.
+    unfold cnt in *. cbn [filter]. specialize (C y). destruct (bytes_eqb y z); cbn [length]; lia.
+Qed.
+
+Lemma pmsg_eqb_holds known p q : pmsg_eqb p q = true -> holds known p = holds known q.
+Proof.
+  unfold pmsg_eqb, holds. intro H. apply andb_true_iff in H as [_ H].
+  destruct (pm_parent p) as [x|], (pm_parent q) as [y|]; try discriminate; [|reflexivity].
+  apply bytes_eqb_eq in H. subst. reflexivity.
+Qed.
+Lemma remove_pm_held known p infl i : remove_pm p infl = Some i ->
+  forall y, cnt y (held known infl) = (cnt y (held known i) + cnt y (holds known p))%nat.
+Proof.
+  revert i; induction infl as [|q infl IH]; cbn [remove_pm]; [discriminate|]. intros i H y.
+  unfold held in *. cbn [flat_map]. rewrite cnt_app. destruct (pmsg_eqb p q) eqn:E.
+  - injection H as <-. rewrite (pmsg_eqb_holds known p q E). lia.
+  - destruct (remove_pm p infl) as [i'|]; [|discriminate]. injection H as <-. cbn [flat_map]. rewrite cnt_app.
+    rewrite (IH i' eq_refl y). lia.
+Qed.
+
+(* the locks held are exactly the parents of the proposals in flight; no unlock of an unlocked mutex *)
+Lemma prun_inv known locked infl evs infl' :
+  (forall y, cnt y locked = cnt y (held known infl)) ->
+  in_flight infl evs = Some infl' ->
+  prun known locked evs <> PPanic /\
+  forall l, prun known locked evs = PLocks l -> forall y, cnt y l = cnt y (held known infl').
+Proof.
+  revert locked infl; induction evs as [|e evs IH]; intros locked infl Inv F; cbn [prun in_flight] in *.
+  - injection F as <-. split; [discriminate|]. intros l H. injection H as <-. exact Inv.
+  - destruct e as [p|p]; cbn [pstep].
+    + destruct (pm_parent p) as [par|] eqn:Pp.
+      * destruct (id_in par known) eqn:K.
+        -- destruct (id_in par locked) eqn:L; [split; [discriminate|intros l H; discriminate H]|].
+           apply (IH (par :: locked) (p :: infl)); [|exact F].
+           intro y. unfold held. cbn [flat_map]. rewrite cnt_app. unfold holds at 1. rewrite Pp, K.
+           fold (held known infl). rewrite <- Inv. unfold cnt. cbn [filter].
+           destruct (bytes_eqb y par); cbn [length app]; lia.
+        -- apply (IH locked (p :: infl)); [|exact F].
+           intro y. unfold held. cbn [flat_map]. rewrite cnt_app. unfold holds at 1. rewrite Pp, K. exact (Inv y).
+      * apply (IH locked (p :: infl)); [|exact F].
+        intro y. unfold held. cbn [flat_map]. rewrite cnt_app. unfold holds at 1. rewrite Pp. exact (Inv y).
+    + destruct (remove_pm p infl) as [i|] eqn:R; [|discriminate].
+      pose proof (remove_pm_held known p infl i R) as C.
+      destruct (pm_parent p) as [par|] eqn:Pp.
+      * destruct (id_in par known) eqn:K.
+        -- assert (HP : holds known p = [par]) by (unfold holds; rewrite Pp, K; reflexivity).
+           rewrite HP in C.
+           assert (P : (0 < cnt par locked)%nat).
+           { rewrite Inv, C, cnt_one, bytes_eqb_refl. lia. }
+           destruct (remove1_cnt par locked P) as (r & -> & Cr).
+           apply (IH r i); [|exact F]. intro y. specialize (Cr y). specialize (C y). rewrite Inv in Cr.
+           rewrite cnt_one in C. destruct (bytes_eqb y par); lia.
+        -- assert (HP : holds known p = []) by (unfold holds; rewrite Pp, K; reflexivity).
+           rewrite HP in C. apply (IH locked i); [|exact F]. intro y. rewrite Inv, C, cnt_nil. lia.
+      * assert (HP : holds known p = []) by (unfold holds; rewrite Pp; reflexivity).
+        rewrite HP in C. apply (IH locked i); [|exact F]. intro y. rewrite Inv, C, cnt_nil. lia.
+Qed.
+
+(* when every proposal handler has returned no channel is locked - whatever the proposal ids, the
+   parents and the order of arrivals and answers; and no Unlock hits an unlocked mutex on the way *)
+Lemma proposal_locks_released known evs :
+  in_flight [] evs = Some [] ->
+  prun known [] evs <> PPanic /\ forall l, prun known [] evs = PLocks l -> l = [].
+Proof.
+  intro F. destruct (prun_inv known [] [] evs [] (fun y => eq_refl) F) as [NP H]. split; [exact NP|].
+  intros l E. specialize (H l E). destruct l as [|x l]; [reflexivity|].
+  specialize (H x). unfold held, cnt in H. cbn [flat_map filter] in H. rewrite bytes_eqb_refl in H. discriminate H.
+Qed.
+
+(* interceptors carry the identity and the balances of their sub-channel only: an update is judged
+   against the parent state at arrival. If it is exactly the funding for some other state `old` of
+   the parent, the filter accepts it only if `old` and the current state agree on locked funds and
+   balances. *)
+Lemma funding_judged_against_current cur old new ic :
+  fund_filter repaired cur new ic = true ->
+  funded old new (ic_id ic) (bals_sum (ic_bals ic)) [] (ic_bals ic) ->
+  locked_of old = locked_of cur /\ forall a p, bal_at (bals_of old) a p = bal_at (bals_of cur) a p.
+Proof.
+  intros F [Lo (_ & _ & Bo)]. destruct (fund_filter_safe _ _ _ F) as [[Lc (_ & _ & Bc)] _]. split.
+  - rewrite Lc in Lo. apply app_inv_tail in Lo. auto.
+  - intros a p. specialize (Bo a p). specialize (Bc a p). lia.
+Qed.
+Lemma settlement_judged_against_current cur old new ic :
+  settle_filter repaired cur new ic = Some true -> settled old new (ic_id ic) (ic_bals ic) ->
+  forall a p, bal_at (bals_of old) a p = bal_at (bals_of cur) a p.
+Proof.
+  intros F [_ (_ & _ & Bo)]. destruct (settle_filter_safe _ _ _ F) as [_ (_ & _ & Bc)].
+  intros a p. specialize (Bo a p). specialize (Bc a p). lia.
+Qed.
